@@ -231,3 +231,18 @@ func defaultPwOK(pw string) bool {
 
 // hashable reports whether bcrypt will accept the password (x/crypto refuses > 72 bytes).
 func hashable(pw string) bool { return len(pw) <= 72 }
+
+// subjectOf is the account a 2FA request is about when the handler runs: the session's user, a
+// user the remember middleware re-authenticated earlier in this very request, else the pending
+// login of that kind.
+func subjectOf(s *sim.Sim, rec *world.Rec, kind string) string {
+	if v := rec.SessIn["uid"]; v != "" {
+		return v
+	}
+	if s.RememberActive() {
+		if c := s.Cookies[rec.CookiesIn["rm"]]; c != nil && sim.SessPutAny(rec, "uid", c.PID) && sim.SessPutAny(rec, "halfauth", "true") {
+			return c.PID
+		}
+	}
+	return rec.SessIn[kind+"_pending"]
+}
